@@ -56,6 +56,7 @@ type Contract struct {
 	HasMod      bool
 	KeepStable  bool // `keeps stable [except c...]`: writes no stable / private field of a pre-existing object other than the listed components (checked as a frame)
 	KeepExcept  []string
+	CapturesRO  bool // `captures readonly`: a closure that only reads the variables it captures (no store through a captured cell, no escape of its address)
 	Pure        bool
 	Trusted     bool
 	Extern      bool
@@ -352,7 +353,7 @@ func (db *ContractDB) LoadContractFile(file, pkgPath string) {
 				}
 				kind := fs[1]
 				switch kind {
-				case "invariant", "decreases", "step", "exit", "trace_step":
+				case "invariant", "decreases", "step", "exit", "trace_step", "trace_entry":
 				default:
 					errf("unknown loop clause kind %q", kind)
 					return
@@ -361,8 +362,9 @@ func (db *ContractDB) LoadContractFile(file, pkgPath string) {
 				p2, text2 := parseProps(text)
 				var cond *SExpr
 				arg := ""
-				if kind == "trace_step" {
+				if kind == "trace_step" || kind == "trace_entry" {
 					// loop N trace_step <cond> : <regexp over the events of one iteration>
+					// loop N trace_entry <cond> : <regexp over the events from function entry to the loop>
 					k := strings.Index(text2, " : ")
 					if k < 0 {
 						errf("trace_step needs ' : '")
@@ -376,7 +378,7 @@ func (db *ContractDB) LoadContractFile(file, pkgPath string) {
 					errf("%v", err)
 					return
 				}
-				if kind == "trace_step" {
+				if kind == "trace_step" || kind == "trace_entry" {
 					cond = e
 				}
 				cl := &Clause{Kind: kind, Props: p2, Text: text2, Expr: e, Cond: cond, Arg: arg, Loop: n, Line: loc}
@@ -523,6 +525,12 @@ func (db *ContractDB) LoadContractFile(file, pkgPath string) {
 				if len(fs) > 2 {
 					cur.KeepExcept = append(cur.KeepExcept, fs[2:]...)
 				}
+			case "captures":
+				if strings.TrimSpace(r) != "readonly" {
+					errf("captures: expected `captures readonly`")
+					return
+				}
+				cur.CapturesRO = true
 			case "allocates":
 				cur.Allocates = append(cur.Allocates, strings.FieldsFunc(r, func(c rune) bool { return c == ',' || c == ' ' })...)
 			case "pure":
